@@ -372,12 +372,35 @@ def scanType (cfg : Cfg) (f : File) : Option RType :=
     | .other => some (.nonChunk r)
     | .bad => none
 
+/-- Does the scan take the file name of key `k` for a record key? `get_data_from_filename` is `hex::decode` of
+the whole name with no filter (regenerated flag) — every key, of any length, comes back. Keys are ids here,
+so a filter on the name (should one appear in the source) cannot be modelled key by key: the flag turns
+false and the theorems about restarts no longer check. A file whose name is not taken is skipped, not deleted. -/
+def nameKept (_k : Nat) : Bool := Gen.Store.scanAcceptsEveryHexName && Gen.Store.fileNameIsFullHex
+
+/-- what the start-up scan makes of the file of key `k` -/
+def scanEntry (cfg : Cfg) (k : Nat) (f : File) : Option RType :=
+  if nameKept k then scanType cfg f else none
+
 def scanIndex (cfg : Cfg) : List (Nat × File) → List (Nat × RType)
   | [] => []
   | (k, f) :: rest =>
-    match scanType cfg f with
+    match scanEntry cfg k f with
     | some rt => (k, rt) :: scanIndex cfg rest
     | none => scanIndex cfg rest
+
+/-- The record type `LocalSwarmCmd::PutLocalRecord`'s handler (cmd.rs) derives from the header of value `v`
+before it calls `put_verified`: Chunk ↦ `Chunk`, Scratchpad ↦ `Scratchpad`, Transaction / Register ↦
+`NonChunk(content hash)`; kinds with payment and unparsable headers are refused (`none`). The harness gives
+values with `v % 3 = 1` the kinds Transaction, Register, Scratchpad, then four with-payment kinds, by `(v / 3) % 7`. -/
+def putLocalRecordType (v : Nat) : Option RType :=
+  match hdrClass v with
+  | .chunk => some .chunk
+  | .bad => none
+  | .other =>
+    if (v / 3) % 7 < 2 then some (.nonChunk (.whole v))
+    else if (v / 3) % 7 = 2 then some .scratchpad
+    else none
 
 /-- `RecordStore::put` (the unverified kad path) answers `ValueTooLarge`; `put_verified` has no size test -/
 def kadPutTooLarge (cfg : Cfg) (v : Nat) : Bool :=
@@ -391,7 +414,7 @@ def restart (cfg : Cfg) (dist : Nat → Nat) (disk : List (Nat × File)) (hist :
     byDist := index.foldr (fun e acc => insert (dist e.1) e.1 acc) [],
     farthest := calcFarthest dist index,
     cache := [], clock := 0,
-    disk := disk.filter (fun e => (scanType cfg e.2).isSome),
+    disk := disk.filter (fun e => (scanEntry cfg e.1 e.2).isSome || !nameKept e.1),
     hist := hist,
     tasks := [(nextId, .flush (hist.getD 0))], notes := [], nextId := nextId + 1,
     payments := hist.getD 0, range := none }
